@@ -93,6 +93,23 @@ Prog ==
                                IN  IF "then" \in DOMAIN call THEN [t |-> "filter", e |-> f1, name |-> call.then, args |-> <<>>] ELSE f1)],
           [t |-> "text", s |-> <<35>>], [t |-> "obj", e |-> [t |-> "var", name |-> S0]] >>
 
-EmitCase == PrintT(ToJson([id |-> ToString(<<s, call.name, call.args, IF "then" \in DOMAIN call THEN call.then ELSE "">>), kind |-> "render", f |-> call.name,
-                           prog |-> Prog, env |-> << <<S0, Str(s)>> >>]))
+\* the same call with its arguments held in variables, in other Go representations (Drops, pointers, integer widths);
+\* emitted for the shortest receivers only, to keep the number of cases in hand
+ArgName(i) == <<97, 48 + i>>
+ArgVars == [i \in 1..Len(call.args) |-> [t |-> "var", name |-> ArgName(i)]]
+ProgV == << [t |-> "obj", e |-> [t |-> "filter", e |-> [t |-> "var", name |-> S0], name |-> call.name, args |-> ArgVars]],
+            [t |-> "text", s |-> <<35>>], [t |-> "obj", e |-> [t |-> "var", name |-> S0]] >>
+HintFor(v, n) ==
+  CASE v.k = "int" -> IF v.v >= 0 THEN <<"uint8", "int64", "drop", "ptr", "uint32", "int16", "uint64">>[(n % 7) + 1]
+                      ELSE <<"int8", "int64", "drop", "int32">>[(n % 4) + 1]
+    [] OTHER -> <<"drop", "ptr", "dropdrop">>[(n % 3) + 1]
+ReprV == [p \in {"s"} \cup {"a" \o ToString(i) : i \in 1..Len(call.args)} |->
+            IF p = "s" THEN <<"", "drop", "ptr">>[((Len(s) + Len(call.args)) % 3) + 1]
+            ELSE LET i == IF p = "a1" THEN 1 ELSE 2 IN HintFor(call.args[i], Len(s) + i + (IF call.args[i].k = "int" THEN call.args[i].v + 3 ELSE Len(call.args[i].v))) ]
+IdStr == ToString(<<s, call.name, call.args, IF "then" \in DOMAIN call THEN call.then ELSE "">>)
+EmitCase ==
+  /\ PrintT(ToJson([id |-> IdStr, kind |-> "render", f |-> call.name, prog |-> Prog, env |-> << <<S0, Str(s)>> >>]))
+  /\ (call.args # <<>> /\ ~ListResult /\ "then" \notin DOMAIN call /\ Len(s) <= 2) =>
+       PrintT(ToJson([id |-> "v" \o IdStr, kind |-> "render", f |-> call.name, prog |-> ProgV,
+                      env |-> << <<S0, Str(s)>> >> \o [i \in 1..Len(call.args) |-> <<ArgName(i), call.args[i]>>], repr |-> ReprV]))
 =============================================================================
